@@ -51,11 +51,29 @@ Step(e) ==
              o == ReadOutcomeD(D, mem, Vis(wpos), rpos, Bytes2Bits(e.dst), e.dp, e.n)
          IN /\ e.res = o.res /\ e.out = Bits2Bytes(o.mem)
             /\ rpos' = o.pos /\ UNCHANGED <<be, mem, wpos, vis>>
+    [] e.op = "rp" ->                    \* with_read_position_at(pos, read_bits*(..)): reads there, the read cursor comes back
+         LET o == ReadOutcomeD(Dev, mem, Vis(wpos), e.pos, Bytes2Bits(e.dst), e.dp, e.n)
+         IN /\ e.pos < wpos /\ e.res = o.res /\ e.out = Bits2Bytes(o.mem)
+            /\ e.len = wpos
+            /\ UNCHANGED <<be, mem, wpos, rpos, vis>>
+    [] e.op = "mr" ->                    \* with_max_read(max, read_bits*(..)): only max bits from the read cursor on are visible
+         LET o == ReadOutcomeD(Dev, mem, rpos + e.max, rpos, Bytes2Bits(e.dst), e.dp, e.n)
+         IN /\ rpos + e.max <= wpos /\ e.res = o.res /\ e.out = Bits2Bytes(o.mem)
+            /\ e.len = wpos                                       \* the write position comes back
+            /\ rpos' = o.pos /\ UNCHANGED <<be, mem, wpos, vis>>
     [] e.op = "rr" ->                    \* reset_read_position
          /\ rpos' = 0 /\ UNCHANGED <<be, mem, wpos, vis>>
     [] e.op = "clr" ->                   \* clear
          /\ e.len = 0 /\ e.bytes = <<>>
          /\ mem' = <<>> /\ wpos' = 0 /\ rpos' = 0 /\ vis' = 0 /\ UNCHANGED be
+    [] e.op = "sp" ->                    \* Bits::set_pos: clamped to the declared length, returns where the cursor is
+         LET p == IF e.arg <= vis THEN e.arg ELSE vis
+         IN /\ be = "bits" /\ e.ret = p /\ rpos' = p /\ UNCHANGED <<be, mem, wpos, vis>>
+    [] e.op = "sl" ->                    \* Bits::set_len: clamped to the octets that are there, returns the declared length
+         LET n == IF e.arg <= Len(mem) THEN e.arg ELSE Len(mem)
+         IN /\ be = "bits" /\ e.arg >= rpos /\ e.ret = n /\ vis' = n /\ UNCHANGED <<be, mem, wpos, rpos>>
+    [] e.op = "obs" ->                   \* Bits::len / remaining
+         /\ be = "bits" /\ e.len = vis /\ e.rem = vis - rpos /\ UNCHANGED <<be, mem, wpos, rpos, vis>>
     [] e.op = "pos" ->                   \* observed cursor of a slice / Bits back end
          /\ e.pos = (IF be = "mslice" THEN wpos ELSE rpos) /\ UNCHANGED <<be, mem, wpos, rpos, vis>>
 
